@@ -428,3 +428,88 @@ Theorem C11_detach_before_release_refuted :
     img_open (base r) = true.
 Proof. exact detach_first_refuted. Qed.
 Print Assumptions C11_detach_before_release_refuted.
+
+(** ** Round 8: faults of the OUTPUT STREAM inside the clean-up of an animated draw()
+    (model/ImgIterFin.v, proofs/ImgIterFinProofs.v).  The [finally] block of
+    [_display_animated] is a sequence of steps; the stream it writes to may have stopped
+    accepting data (closed pipe, vanished pty), and then stays broken: the clean-up's own
+    write fails.  [anim_draw cleanup body pos0 f]: the body (any renders, each moving the
+    current frame, and any stream calls) against a stream accepting [f] further calls
+    ([None]: for ever), cut at the first refused call, then the clean-up steps, cut likewise. *)
+From TI Require Import model.ImgIterFin proofs.ImgIterFinProofs.
+
+(** for EVERY order of clean-up steps in which the close of the iterator, the close of the
+    image and the restore of the position all stand before the first stream call, EVERY body
+    and EVERY position at which the stream starts failing (body or clean-up): the current
+    frame is the one before the call, iterator and image are closed *)
+Theorem C11_ordered_cleanup_restores :
+  forall steps, restores_first steps = true ->
+  forall body pos0 f, fin_ok pos0 (fst (anim_draw steps body pos0 f)) = true.
+Proof. exact anim_draw_restores. Qed.
+Print Assumptions C11_ordered_cleanup_restores.
+
+(** the code's order (common.py:1360-1366) *)
+Theorem C11_anim_cleanup_restores_under_stream_faults :
+  forall body pos0 f,
+    let s := fst (anim_draw code_cleanup body pos0 f) in
+    a_pos s = pos0 /\ a_iter_open s = false /\ a_img_open s = false.
+Proof. exact anim_cleanup_restores_under_stream_faults. Qed.
+Print Assumptions C11_anim_cleanup_restores_under_stream_faults.
+
+(** draw() raises exactly when the stream refused one of the calls made (k-th call, k below
+    the number of calls of the fault-free run) *)
+Theorem C11_anim_draw_raises_iff :
+  forall body pos0 k,
+    snd (anim_draw code_cleanup body pos0 (Some k)) = Nat.ltb k (stream_calls_body body + 1)%nat.
+Proof. exact anim_draw_raises_iff. Qed.
+Print Assumptions C11_anim_draw_raises_iff.
+
+(** the order is that of the SOURCE: the [finally] block of the generated skeleton of
+    _display_animated is exactly [code_cleanup]; every stream call in it comes after the close
+    of the iterator, the close of the image and the restore of the seek position *)
+Theorem C11_source_anim_cleanup_order :
+  exists steps, source_cleanup sk_BaseImage__display_animated = Some steps /\ restores_first steps = true.
+Proof. exact source_anim_cleanup_order. Qed.
+Print Assumptions C11_source_anim_cleanup_order.
+
+Theorem C11_source_anim_cleanup_is_model :
+  source_cleanup sk_BaseImage__display_animated = Some code_cleanup.
+Proof. exact source_anim_cleanup_is_model. Qed.
+Print Assumptions C11_source_anim_cleanup_is_model.
+
+(** the same over the effect semantics (lib/Eff.v) of the generated skeletons with NO block
+    exempt from faults ([unprotect]): stream calls, the interrupted-draw handler, renders and
+    sleep may raise KeyboardInterrupt or an Exception before or after taking effect, inside
+    the [finally] blocks and [except] handlers too; at exit of _display_animated / of the whole
+    old-API draw() the seek position is the one at entry, the iterator is closed, every image
+    opened is closed (and the size setting is the one at entry) *)
+Theorem C11_source_display_animated_restores_under_stream_faults :
+  forall vs, length vs = nv_BaseImage__display_animated ->
+  forall o s', Eff.eval cfg_stream false (Eff.unprotect sk_BaseImage__display_animated) (Eff.init vs) o s' ->
+    Eff.skmod s' = false /\ Eff.iter_open s' = false /\ Eff.imgs_closed s' = true.
+Proof. exact source_display_animated_restores. Qed.
+Print Assumptions C11_source_display_animated_restores_under_stream_faults.
+
+Theorem C11_source_draw_restores_under_stream_faults :
+  forall vs, length vs = nv_BaseImage_draw ->
+  forall o s', Eff.eval cfg_stream false (Eff.unprotect sk_BaseImage_draw) (Eff.init vs) o s' ->
+    Eff.skmod s' = false /\ Eff.szmod s' = false /\ Eff.iter_open s' = false /\ Eff.imgs_closed s' = true.
+Proof. exact source_draw_restores. Qed.
+Print Assumptions C11_source_draw_restores_under_stream_faults.
+
+(** the excluded order -- the final cursor move written and flushed FIRST -- is expressible and
+    refuted: a stream that broke during the animation leaves the image at the last rendered
+    frame with iterator and image open; the order criterion rejects it; so does the effect
+    analysis of a skeleton with that order *)
+Theorem C11_anim_cleanup_write_first_refuted :
+  exists body pos0 f, let s := fst (anim_draw write_first_cleanup body pos0 f) in
+    a_pos s <> pos0 /\ a_iter_open s = true /\ a_img_open s = true.
+Proof. exact anim_cleanup_write_first_refuted. Qed.
+Print Assumptions C11_anim_cleanup_write_first_refuted.
+
+Theorem C11_source_level_write_first_refuted :
+  Eff.analyze cfg_stream 0 (Eff.unprotect sk_write_first) anim_fin_post = false
+  /\ Eff.analyze cfg_stream 0 (Eff.unprotect sk_code_order) anim_fin_post = true
+  /\ source_cleanup sk_write_first = Some write_first_cleanup.
+Proof. exact source_level_write_first_refuted. Qed.
+Print Assumptions C11_source_level_write_first_refuted.
